@@ -45,8 +45,10 @@ type ErrVal struct {
 }
 type NilVal struct{}
 type StrVal struct {
-	S     string
 	Known bool
+	S     string
+	// Chars, when non-nil, is the symbolic content of a string of known length (one 8-bit value per byte).
+	Chars []Value
 }
 type Struct struct {
 	T     types.Type
